@@ -34,6 +34,9 @@ PROBES = {
     "named_ptr_deref": "type PU *uint64\n\nfunc P3(p PU) uint64 {\n\treturn *p\n}\n",
     "nested_elided_lit": "func P4() [][]uint64 {\n\treturn [][]uint64{{}}\n}\n",
     "five_results": "func five() (uint64, uint64, uint64, uint64, uint64) {\n\treturn 1, 2, 3, 4, 5\n}\n\nfunc P5() uint64 {\n\ta, b, c, d, e := five()\n\treturn a + b + c + d + e\n}\n",
+    "five_results_parenthesised": "func five4() (uint64, uint64, uint64, uint64, uint64) {\n\treturn 1, 2, 3, 4, 5\n}\n\nfunc P5d() uint64 {\n\ta, b, c, d, e := (five4())\n\treturn a + b + c + d + e\n}\n",
+    "five_results_assign_parenthesised": "func five5() (uint64, uint64, uint64, uint64, uint64) {\n\treturn 1, 2, 3, 4, 5\n}\n\nfunc P5e() uint64 {\n\tvar a uint64\n\tvar b uint64\n\tvar c uint64\n\tvar d uint64\n\tvar e uint64\n\ta, b, c, d, e = (five5())\n\treturn a + b + c + d + e\n}\n",
+    "five_results_function_type": "type Five func() (uint64, uint64, uint64, uint64, uint64)\n\nfunc P5f(f Five) uint64 {\n\ta, b, c, d, e := f()\n\treturn a + b + c + d + e\n}\n",
     "five_results_blank": "func five2() (uint64, uint64, uint64, uint64, uint64) {\n\treturn 1, 2, 3, 4, 5\n}\n\nfunc P5b() uint64 {\n\ta, b, c, d, _ := five2()\n\treturn a + b + c + d\n}\n",
     "five_results_all_blank": "func five3() (uint64, uint64, uint64, uint64, uint64) {\n\treturn 1, 2, 3, 4, 5\n}\n\nfunc P5c() {\n\t_, _, _, _, _ = five3()\n}\n",
     "mutual_recursion": "func isEven(n uint64) bool {\n\tif n == 0 {\n\t\treturn true\n\t}\n\treturn isOdd(n - 1)\n}\n\nfunc isOdd(n uint64) bool {\n\tif n == 0 {\n\t\treturn false\n\t}\n\treturn isEven(n - 1)\n}\n",
